@@ -7,6 +7,7 @@ the enclosing context and may contain calls -- sits at a position that is NOT an
   assignment      `x = probe`, `x: T = probe`, `x += probe`, annotated assignment without a value
   place           x,  xs[probe],  xs[probe].a,  xs[probe][i],  xs[i][probe]   read as an expression
   target          xs[probe] = v,  xs[probe], y = v, w   (the index expression of an assignment target is evaluated as well)
+  exempt call     barrier(probe),  state_result(tag, probe)
   modifier        with control(c0, probe): ...   /   with power(probe): ...    nested in the checked block
 
 Specification, for every context flag set F:  an assignment or a subscripted place is rejected (GuppyError) iff Dagger is in F;
@@ -124,6 +125,11 @@ def run(ctx: Ctx, dom: FlagDomain) -> bool:
         p = probe()
         yield "xs[probe], y = 0, 1", "assignment", N("Assign", targets=[N("Tuple", elts=[pn(_sub(_var(), p, 1)), pn(_var("y"))], _order=("elts",))],
                                                       value=N("Tuple", elts=[const(), const()], _order=("elts",)), _order=("targets", "value")), p
+        p = probe()
+        yield "barrier(probe)", "exempt call", N("Expr", value=N("BarrierExpr", args=[p], func_ty=Tok("barrier_ty"), _order=("args", "func_ty"))), p
+        p = probe()
+        yield "state_result(tag, probe)", "exempt call", N("Expr", value=N("StateResultExpr", tag_value=Tok("tag"), tag_expr=N("Constant", value="t", _order=()), args=[p], func_ty=Tok("sr_ty"),
+                                                                              has_array_input=False, _order=("tag_value", "tag_expr", "args", "func_ty", "has_array_input"))), p
         for which in ("control", "power"):
             p = probe()
             # (the CFG builder creates `Control(call, call.args)`: the list of control arguments IS the argument list of the raw call, and
@@ -158,7 +164,9 @@ def run(ctx: Ctx, dom: FlagDomain) -> bool:
               ("index-expressions-of-subscripts-are-visited", ("xs[probe]", "xs[probe].a", "xs[probe][0]", "xs[0][probe]", "xs[probe] = 0", "xs[probe], y = 0, 1"),
                "the index expression of a subscripted place or assignment target (stored in the place, not among the children of the node)"),
               ("arguments-of-nested-modifiers-are-visited", ("with control(probe): ...", "with power(probe): ..."),
-               "the argument of a nested control/power modifier (evaluated in the enclosing context)"))
+               "the argument of a nested control/power modifier (evaluated in the enclosing context)"),
+              ("arguments-of-exempt-builtins-are-visited", ("barrier(probe)", "state_result(tag, probe)"),
+               "an argument expression of `barrier` / `state_result` (the builtins are exempt from the flag test, their arguments are not)"))
     for suffix, texts, what in groups:
         mine = [b for b in bad_vis if b["statement"] in texts]
         ctx.check(not mine, "R-C24.8", f"{checker.qualname}#{suffix}", checker.where,
